@@ -60,6 +60,53 @@ func fill(p []byte, seed uint64) {
 	}
 }
 
+// fillClass fills p with contents of a class: 0..2 pseudo-random, 3 all zero,
+// 4 all 0xFF, 5 pseudo-random with runs of 16..80 zero bytes (whole zero words at
+// every alignment), 6 a three-letter alphabet {0x00, 0x01, 0x80}, 7 runs of 0xFF
+// in zeroes. Structured contents matter for implementations that look at the
+// data (skipping zero words, early outs).
+func fillClass(p []byte, seed uint64, class uint64) {
+	fill(p, seed)
+	x := seed*0xD6E8FEB86659FD93 + 1
+	next := func() uint64 {
+		x ^= x << 13
+		x ^= x >> 7
+		x ^= x << 17
+		return x
+	}
+	switch class {
+	case 3:
+		for i := range p {
+			p[i] = 0
+		}
+	case 4:
+		for i := range p {
+			p[i] = 0xFF
+		}
+	case 5, 7:
+		if class == 7 {
+			for i := range p {
+				p[i] = 0
+			}
+		}
+		for i := 0; i < len(p); {
+			i += int(next() % 40)
+			run := 16 + int(next()%65)
+			for k := 0; k < run && i < len(p); k, i = k+1, i+1 {
+				if class == 5 {
+					p[i] = 0
+				} else {
+					p[i] = 0xFF
+				}
+			}
+		}
+	case 6:
+		for i := range p {
+			p[i] = [...]byte{0, 0, 1, 0x80}[p[i]&3]
+		}
+	}
+}
+
 // one runs one case; returns "" or a failure description.
 func one(im impl, la, lb, offD, offA, offB, alias, extraDst int, seed uint64) string {
 	n := min(la, lb)
@@ -69,8 +116,8 @@ func one(im impl, la, lb, offD, offA, offB, alias, extraDst int, seed uint64) st
 	// backing arrays with guard bytes on both sides
 	bufA := make([]byte, guard+offA+la+guard)
 	bufB := make([]byte, guard+offB+lb+guard)
-	fill(bufA, seed)
-	fill(bufB, seed+1)
+	fillClass(bufA, seed, seed>>61&7)
+	fillClass(bufB, seed+1, seed>>58&7)
 	a := bufA[guard+offA : guard+offA+la]
 	b := bufB[guard+offB : guard+offB+lb]
 	var bufD, dst []byte
@@ -81,7 +128,7 @@ func one(im impl, la, lb, offD, offA, offB, alias, extraDst int, seed uint64) st
 		bufD, dst = bufB, b
 	default:
 		bufD = make([]byte, guard+offD+n+extraDst+guard)
-		fill(bufD, seed+2)
+		fillClass(bufD, seed+2, seed>>55&7)
 		dst = bufD[guard+offD : guard+offD+n+extraDst]
 	}
 	a0 := append([]byte(nil), bufA...)
@@ -199,7 +246,7 @@ func TestC20Sweep(t *testing.T) {
 	t.Logf("swept %d cases (N=%d, %d implementations)", total, N, len(ims))
 }
 
-const ruleRapid = "rapid-drawn cases: lengths 0..5000 (biased to multiples of 8 +-1 and to 0..64), offsets 0..15, contents by seed, aliasing {none, dst==a, dst==b}, len(dst) in {n, n+1, n+17, n+random}; same oracle and implementations; non-trivial as in the sweep; distinct by hash of the parameters"
+const ruleRapid = "rapid-drawn cases: lengths 0..5000 (biased to multiples of 8 +-1 and to 0..64), offsets 0..15, contents by seed (per buffer one of: pseudo-random, all zero, all 0xFF, random with runs of zero bytes, a three-letter alphabet, runs of 0xFF in zeroes), aliasing {none, dst==a, dst==b}, len(dst) in {n, n+1, n+17, n+random}; same oracle and implementations; non-trivial as in the sweep; distinct by hash of the parameters"
 
 func TestC20Rapid(t *testing.T) {
 	r := ev.New("C20", "rapid", ruleRapid)
